@@ -1082,7 +1082,7 @@ func c05CandidateOrder(c *Ctx) {
 	// that caller) and, among the offending ones, by their order: own code first, then helpers by name
 	by := map[*ssa.Function][]site{}
 	var order []*ssa.Function
-	n := 0
+	n, fresh := 0, 0
 	for _, f := range m.fns {
 		loops := flow.Loops(f)
 		ssau.Instrs(f, func(in ssa.Instruction) {
@@ -1100,14 +1100,25 @@ func c05CandidateOrder(c *Ctx) {
 				return
 			}
 			inMap := ""
+			carried := false
 			for _, l := range enclosingLoops(loops, cl.Block()) {
 				if op := loopOperand(l); op != nil {
 					if _, isMap := op.Type().Underlying().(*types.Map); isMap {
 						inMap = c.posv(op)
+						// a list that is made anew in every iteration of the map loop (a private copy
+						// filled by an inner, ordered loop) does not accumulate across the map's keys
+						if !listFreshPerIteration(cl, l) {
+							carried = true
+						}
 					}
 				}
 			}
 			n++
+			if inMap != "" && !carried {
+				fresh++
+				c.R.Discharge("C05-R7", fmt.Sprintf("%s: per-iteration list #%d", fname(f), fresh), c.pos(cl), "the list is created inside the range over the map ("+inMap+") and filled in a fixed order; it does not accumulate across map keys")
+				return
+			}
 			top := f
 			for top.Parent() != nil {
 				top = top.Parent()
@@ -1146,4 +1157,44 @@ func c05CandidateOrder(c *Ctx) {
 	if n == 0 {
 		c.R.Break("C05-R7: the matcher never extends a list of binding sets")
 	}
+}
+
+// listFreshPerIteration: the list that the append extends is created inside the body of loop l in every one of
+// its iterations: walking the accumulator back through appends and the phis of inner loops ends only at
+// make([]T...)/nil inside l, never at a phi in l's header (which would carry the list from one iteration of l
+// to the next) nor at anything defined outside l or read from memory.
+func listFreshPerIteration(app *ssa.Call, l *flow.Loop) bool {
+	seen := map[ssa.Value]bool{}
+	var fresh func(v ssa.Value, viaInner bool) bool
+	fresh = func(v ssa.Value, viaInner bool) bool {
+		if seen[v] {
+			return true
+		}
+		seen[v] = true
+		switch x := v.(type) {
+		case *ssa.Phi:
+			if x.Block() == l.Header || !l.Blocks[x.Block()] {
+				return false
+			}
+			for _, e := range x.Edges {
+				if !fresh(e, true) {
+					return false
+				}
+			}
+			return true
+		case *ssa.Call:
+			if b, ok := x.Common().Value.(*ssa.Builtin); ok && b.Name() == "append" && l.Blocks[x.Block()] {
+				return fresh(x.Common().Args[0], viaInner)
+			}
+			return false
+		case *ssa.MakeSlice:
+			return l.Blocks[x.Block()] && x.Block() != l.Header
+		case *ssa.Const:
+			return x.IsNil()
+		case *ssa.ChangeType:
+			return fresh(x.X, viaInner)
+		}
+		return false
+	}
+	return fresh(app.Common().Args[0], false)
 }
